@@ -29,6 +29,7 @@ fn main() {
         Some("worker") => cmd_worker(&args),
         Some("replay") => cmd_replay(&args),
         Some("replay-inner") => cmd_replay_inner(&args),
+        Some("gen-corpus") => cmd_gen_corpus(&args),
         Some("trace-digest") => {
             quiet_panics();
             svcore::props::multi::trace_digest_cmd(args.get(2).map_or("", String::as_str))
@@ -51,6 +52,12 @@ fn tier_of(args: &[String]) -> Tier {
 
 fn verif_seed() -> u64 {
     std::env::var("VERIF_SEED").ok().and_then(|s| s.trim().parse::<u64>().ok()).unwrap_or(20_260_926)
+}
+
+/// The binary that runs generated cases and replays: normally this one; for C07 an
+/// instrumented (sanitizer) build of the same program.
+fn worker_exe() -> PathBuf {
+    std::env::var("SVCHECK_WORKER_EXE").map_or_else(|_| std::env::current_exe().unwrap(), PathBuf::from)
 }
 
 fn scratch_dir() -> PathBuf {
@@ -76,7 +83,11 @@ fn cmd_worker(args: &[String]) -> i32 {
     let mut inflight = InFlight::new(Some(&infl));
     svcore::campaign::start_watchdog(120);
     let mut reports: Vec<WorkerReport> = vec![];
+    let only = arg_after(args, "--only-sub");
     for sub in &meta.subs {
+        if only.as_ref().is_some_and(|o| o != sub.id) {
+            continue;
+        }
         let total = if tier == Tier::Quick { sub.quick } else { sub.thorough };
         // fixed split of the fixed amount of work
         let share = total / of + u64::from(idx < total % of);
@@ -108,7 +119,7 @@ fn write_replay(prop: &str, name: &str, v: &Value) -> PathBuf {
 
 fn run_replay_file(prop: &str, path: &Path, known: &Known) -> Result<Option<(String, String)>, String> {
     // returns Some((kind, detail)) if the replay still fails with an unknown failure
-    let exe = std::env::current_exe().map_err(|e| e.to_string())?;
+    let exe = worker_exe();
     let out = Command::new(exe)
         .args(["replay-inner", prop, path.to_str().unwrap()])
         .stdin(Stdio::null())
@@ -154,10 +165,13 @@ fn cmd_check(args: &[String]) -> i32 {
         .map(|d| d.filter_map(|e| e.ok().map(|e| e.path())).filter(|p| p.extension().is_some_and(|x| x == "json")).collect())
         .unwrap_or_default();
     files.sort();
+    if args.iter().any(|a| a == "--no-replays") {
+        files.clear();
+    }
     for f in &files {
         replayed += 1;
         // a replay whose failure matches an OPEN known finding prints the KNOWN-FINDING line
-        let exe = std::env::current_exe().unwrap();
+        let exe = worker_exe();
         let out = Command::new(&exe).args(["replay-inner", &prop, f.to_str().unwrap()]).stdin(Stdio::null()).output();
         match out {
             Ok(o) => match o.status.code() {
@@ -181,13 +195,15 @@ fn cmd_check(args: &[String]) -> i32 {
     // 2. generated search in worker processes
     let workers: u64 = if tier == Tier::Quick { 8 } else { 16 };
     let dir = scratch_dir();
-    let exe = std::env::current_exe().unwrap();
+    let exe = worker_exe();
     let mut children = vec![];
     for i in 0..workers {
         let out = dir.join(format!("w{i}.json"));
         let infl = dir.join(format!("w{i}.inflight"));
-        let child = Command::new(&exe)
+        let mut cmd = Command::new(&exe);
+        let child = cmd
             .args(["worker", &prop, "--tier", tier.name(), "--seed", &seed.to_string(), "--idx", &i.to_string(), "--of", &workers.to_string()])
+            .args(arg_after(args, "--only-sub").map(|o| vec!["--only-sub".to_string(), o]).unwrap_or_default())
             .arg("--out").arg(&out)
             .arg("--inflight").arg(&infl)
             .stdin(Stdio::null())
@@ -336,7 +352,8 @@ fn cmd_check(args: &[String]) -> i32 {
     });
     let edir = verif_root().join("evidence");
     let _ = std::fs::create_dir_all(&edir);
-    let _ = std::fs::write(edir.join(format!("{prop}.json")), serde_json::to_string_pretty(&ev).unwrap());
+    let epath = arg_after(args, "--evidence-out").map_or_else(|| edir.join(format!("{prop}.json")), PathBuf::from);
+    let _ = std::fs::write(epath, serde_json::to_string_pretty(&ev).unwrap());
 
     for (sig, what) in &known_lines {
         println!("KNOWN-FINDING: property={prop} {sig}: {what}");
@@ -391,11 +408,22 @@ fn cmd_replay_inner(args: &[String]) -> i32 {
     let (Some(prop), Some(file)) = (args.get(2), args.get(3)) else {
         return 2;
     };
-    let Ok(txt) = std::fs::read_to_string(file) else {
+    let Ok(raw) = std::fs::read(file) else {
         eprintln!("cannot read {file}");
         return 2;
     };
-    let Ok(v) = serde_json::from_str::<Value>(&txt) else {
+    let parsed = std::str::from_utf8(&raw).ok().and_then(|t| serde_json::from_str::<Value>(t).ok()).filter(|v| v.get("engine").is_some());
+    let Some(v) = parsed else {
+        // not one of our JSON files: a raw libFuzzer input of the C07 target
+        if prop == "C07" {
+            return match svcore::props::asan::fuzz_one(&raw) {
+                None => 0,
+                Some(f) => {
+                    println!("{}", json!({"kind": f.kind, "detail": f.detail}));
+                    1
+                }
+            };
+        }
         eprintln!("cannot parse {file}");
         return 2;
     };
@@ -426,4 +454,27 @@ fn cmd_replay_inner(args: &[String]) -> i32 {
             2
         }
     }
+}
+
+
+/// svcheck gen-corpus <dir> <n>: write n seed inputs for the libFuzzer target (the C07
+/// proptest strategy with a fixed seed, encoded in the target's byte layout).
+fn cmd_gen_corpus(args: &[String]) -> i32 {
+    use proptest::strategy::{Strategy, ValueTree};
+    use proptest::test_runner::{Config, RngAlgorithm, TestRng, TestRunner};
+    use svcore::campaign::Engine;
+    let (Some(dir), Some(n)) = (args.get(2), args.get(3).and_then(|x| x.parse::<usize>().ok())) else {
+        return 2;
+    };
+    let _ = std::fs::create_dir_all(dir);
+    let mut runner = TestRunner::new_with_rng(
+        Config { failure_persistence: None, ..Config::default() },
+        TestRng::from_seed(RngAlgorithm::ChaCha, &svcore::campaign::seed32(verif_seed(), "C07/corpus", 0)),
+    );
+    let strat = svcore::props::asan::AsanEngine.strategy(Tier::Quick);
+    for i in 0..n {
+        let case = strat.new_tree(&mut runner).unwrap().current();
+        let _ = std::fs::write(Path::new(dir).join(format!("seed-{i:04}")), svcore::props::asan::encode(&case));
+    }
+    0
 }
